@@ -15,8 +15,9 @@ def sh(cmd, cwd=None, timeout=1800):
 
 
 def confirm(pid, k):
-    out = f"/tmp/wt/out_{pid}"
-    wt = f"/tmp/wt/confirm_{pid}_{k}"
+    root = os.environ.get("SEED_ROOT", "/tmp/wt")
+    out = f"{root}/out_{pid}"
+    wt = f"{root}/confirm_{pid}_{k}"
     sh(f"git -C /repo worktree remove --force {wt}")
     r = sh(f"git -C /repo worktree add -f {wt} HEAD")
     assert os.path.isdir(wt), r.stderr
@@ -26,6 +27,10 @@ def confirm(pid, k):
         demo_rel = f"tests/test_demo{k}.py"
         shutil.copy(f"{out}/demo{k}.py", os.path.join(wt, demo_rel))
         cmd = f"/venv/bin/python -m pytest -q -p no:cacheprovider --timeout=600 {demo_rel}"
+        src = open(f"{out}/demo{k}.py").read()
+        if "def test_" not in src:
+            # a standalone program (exit code 0 = property holds)
+            cmd = f"/venv/bin/python {demo_rel}"
         clean = sh(cmd, cwd=wt)
         ap = sh(f"git apply {out}/patch{k}.diff", cwd=wt)
         if ap.returncode != 0:
